@@ -408,70 +408,74 @@ example :
 (`mark`, `demonitor_all`: drain + one forward entry per step, `leave_all`: drain + one forward entry per
 step + finish), any number of caller threads inside `join_scoped` / `leave_scoped` / `monitor` /
 `monitor_scope` / `demonitor` / `demonitor_scope`, each stepped region by region in the order of
-`pg.rs`; a schedule is ANY list of `Tid`s. `g0 ops calls` = the threads about to make `calls` in a state
-reached by the API-level history `ops`. -/
+`pg.rs` — `join_scoped`'s entry-lock region itself one relations lock at a time (`joinLock`, one
+`joinOne` per distinct actor with the status re-check, `joinCommit`), with every region that needs a
+held group entry blocked and everything else (the relations-lock-only regions of the exits included)
+running in between; a schedule is ANY list of `Tid`s. `g0 ops calls` = the threads about to make `calls`
+in a state reached by the API-level history `ops`. -/
 
 /-- the start of a concurrent run: API-level history `ops`, then the threads `calls`, nothing begun -/
 def g0 (ops : List Op) (calls : List Conc.Pc) : Conc.G := Conc.start (run init ops) calls
 
-/-- **The cross-index invariant, weakened exactly by the in-flight exits.** For EVERY schedule and every
-actor `a`: (1) reverse ⊆ forward is never weakened — every membership / group-monitor / world-monitor
-entry of the reverse index has its forward entry; (2) forward ⊆ reverse can fail for `a` only inside
-`a`'s OWN exit, and then every stale forward entry is one of the keys that exit has drained and not yet
-visited (`demon gk wk`: stale listener entries ⊆ `gk` / `wk`; `leaving mk _`: stale member entries ⊆
-`mk`); no operation of any other thread — join, leave, monitor, demonitor, their clean-up regions, the
-regions of other actors' exits — ever accounts for a discrepancy; (3) what the exit has drained from
-the reverse index stays drained. -/
+theorem conc_inv (ops : List Op) (calls : List Conc.Pc) (sched : List Conc.Tid) (a : Nat) :
+    Conc.VInv a (Conc.gView (Conc.run (g0 ops calls) sched)) (Conc.phaseOf (Conc.run (g0 ops calls) sched) a) :=
+  (Conc.allInv_run (Conc.allInv_start (inv_run inv_init ops) calls).1
+    (Conc.allInv_start (inv_run inv_init ops) calls).2 sched).1 a
+
+/-- **The cross-index invariant, weakened exactly by what is in flight.** For EVERY schedule and every
+actor `a`: (1) reverse ⊆ forward: a membership in `a`'s reverse index without its forward entry is one
+that a `join_scoped` holding that group entry has accepted and not yet inserted (`accOf`) — nothing else;
+group-monitor and world-monitor entries always have their forward entry; (2) forward ⊆ reverse can
+fail for `a` only inside `a`'s OWN exit, and then every stale forward entry (or accepted-but-uncommitted
+membership) is one of the keys that exit has drained and not yet visited (`demon gk wk`: stale listener
+entries ⊆ `gk` / `wk`; `leaving mk _`: stale member entries ⊆ `mk`); no operation of any other thread —
+join, leave, monitor, demonitor, their clean-up regions, the regions of other actors' exits — ever
+accounts for such a discrepancy; (3) what the exit has drained from the reverse index stays drained. -/
 theorem conc_cross_index_windows (ops : List Op) (calls : List Conc.Pc) (sched : List Conc.Tid) (a : Nat) :
     let g := Conc.run (g0 ops calls) sched
-    ((∀ k, k ∈ relMem g.st a → a ∈ membersOf g.st k) ∧ (∀ k, k ∈ relGmon g.st a → a ∈ listenersOf g.st k) ∧
-      (∀ s, s ∈ relWmon g.st a → a ∈ worldOf g.st s)) ∧
-    (∀ k, a ∈ membersOf g.st k → k ∈ relMem g.st a ∨ ∃ mk rm, Conc.phaseOf g a = .leaving mk rm ∧ k ∈ mk) ∧
+    ((∀ k, k ∈ relMem g.st a → a ∈ membersOf g.st k ∨ a ∈ Conc.accOf g k) ∧
+      (∀ k, k ∈ relGmon g.st a → a ∈ listenersOf g.st k) ∧ (∀ s, s ∈ relWmon g.st a → a ∈ worldOf g.st s)) ∧
+    (∀ k, a ∈ membersOf g.st k ∨ a ∈ Conc.accOf g k →
+      k ∈ relMem g.st a ∨ ∃ mk rm, Conc.phaseOf g a = .leaving mk rm ∧ k ∈ mk) ∧
     (∀ k, a ∈ listenersOf g.st k → k ∈ relGmon g.st a ∨ ∃ gk wk, Conc.phaseOf g a = .demon gk wk ∧ k ∈ gk) ∧
     (∀ s, a ∈ worldOf g.st s → s ∈ relWmon g.st a ∨ ∃ gk wk, Conc.phaseOf g a = .demon gk wk ∧ s ∈ wk) ∧
-    Conc.drained a g.st (Conc.phaseOf g a) := by
+    (Conc.drainedG (Conc.phaseOf g a) → (∀ k, k ∉ relGmon g.st a) ∧ (∀ s, s ∉ relWmon g.st a)) ∧
+    (Conc.drainedM (Conc.phaseOf g a) → ∀ k, k ∉ relMem g.st a) := by
   intro g
-  have h : Conc.AInv a g.st (Conc.phaseOf g a) :=
-    Conc.allInv_run (Conc.allInv_start (inv_run inv_init ops) calls) sched a
-  refine ⟨h.r, ?_, ?_, ?_, h.dr⟩
+  have h := conc_inv ops calls sched a
+  refine ⟨⟨h.rM, h.rL, h.rW⟩, ?_, ?_, ?_, h.drG, h.drM⟩
   · intro k hk
-    have hz := h.z
-    generalize Conc.phaseOf g a = ph at hz
+    have := h.fM k hk
+    generalize Conc.phaseOf g a = ph at this
     cases ph with
-    | live => exact Or.inl (hz.1 k hk)
-    | marked => exact Or.inl (hz.2.1 k hk)
-    | demon gk wk => exact Or.inl (hz.2.1 k hk)
-    | demonDone => exact Or.inl (hz.2.1 k hk)
-    | leaving mk rm => exact Or.inr ⟨mk, rm, rfl, hz.2.1 k hk⟩
-    | done => exact absurd hk (hz.2.1 k)
+    | leaving mk rm => exact Or.inr ⟨mk, rm, rfl, this⟩
+    | done => exact absurd this id
+    | _ => exact Or.inl this
   · intro k hk
-    have hz := h.z
-    generalize Conc.phaseOf g a = ph at hz
+    have := h.fL k hk
+    generalize Conc.phaseOf g a = ph at this
     cases ph with
-    | live => exact Or.inl (hz.2.1 k hk)
-    | marked => exact Or.inl (hz.2.2.1 k hk)
-    | demon gk wk => exact Or.inr ⟨gk, wk, rfl, hz.2.2.1 k hk⟩
-    | demonDone => exact absurd hk (hz.2.2.1 k)
-    | leaving mk rm => exact absurd hk (hz.2.2.1 k)
-    | done => exact absurd hk (hz.2.2.1 k)
+    | live => exact Or.inl this
+    | marked => exact Or.inl this
+    | demon gk wk => exact Or.inr ⟨gk, wk, rfl, this⟩
+    | _ => exact absurd this id
   · intro s hs
-    have hz := h.z
-    generalize Conc.phaseOf g a = ph at hz
+    have := h.fW s hs
+    generalize Conc.phaseOf g a = ph at this
     cases ph with
-    | live => exact Or.inl (hz.2.2 s hs)
-    | marked => exact Or.inl (hz.2.2.2 s hs)
-    | demon gk wk => exact Or.inr ⟨gk, wk, rfl, hz.2.2.2 s hs⟩
-    | demonDone => exact absurd hs (hz.2.2.2 s)
-    | leaving mk rm => exact absurd hs (hz.2.2.2 s)
-    | done => exact absurd hs (hz.2.2.2 s)
+    | live => exact Or.inl this
+    | marked => exact Or.inl this
+    | demon gk wk => exact Or.inr ⟨gk, wk, rfl, this⟩
+    | _ => exact absurd this id
 
 /-- Full forward ↔ reverse agreement for every actor that is not inside its own exit — whatever all the
-other threads and all the other exits are in the middle of. -/
+other threads and all the other exits are in the middle of (membership counted with what a `join_scoped`
+holding the entry has accepted and is about to insert). -/
 theorem conc_agreement_outside_own_exit (ops : List Op) (calls : List Conc.Pc) (sched : List Conc.Tid) (a : Nat) :
     let g := Conc.run (g0 ops calls) sched
     (Conc.phaseOf g a = .live ∨ Conc.phaseOf g a = .marked) →
-    (∀ k, a ∈ membersOf g.st k ↔ k ∈ relMem g.st a) ∧ (∀ k, a ∈ listenersOf g.st k ↔ k ∈ relGmon g.st a) ∧
-    (∀ s, a ∈ worldOf g.st s ↔ s ∈ relWmon g.st a) := by
+    (∀ k, (a ∈ membersOf g.st k ∨ a ∈ Conc.accOf g k) ↔ k ∈ relMem g.st a) ∧
+    (∀ k, a ∈ listenersOf g.st k ↔ k ∈ relGmon g.st a) ∧ (∀ s, a ∈ worldOf g.st s ↔ s ∈ relWmon g.st a) := by
   intro g hp
   obtain ⟨⟨r1, r2, r3⟩, f1, f2, f3, _⟩ := conc_cross_index_windows ops calls sched a
   refine ⟨fun k => ⟨fun h => ?_, r1 k⟩, fun k => ⟨fun h => ?_, r2 k⟩, fun s => ⟨fun h => ?_, r3 s⟩⟩
@@ -486,23 +490,23 @@ theorem conc_agreement_outside_own_exit (ops : List Op) (calls : List Conc.Pc) (
     · rcases hp with hp | hp <;> (rw [hp] at e; cases e)
 
 /-- **No zombie, for every exit of every schedule**: as soon as the exit of `a` has finished — whatever
-the other exits and the callers are still in the middle of — `a` is stopping, a member of no group, a
-listener of none, and its reverse-index sets are empty. -/
+the other exits and the callers are still in the middle of — `a` is stopping, a member of no group (not
+even accepted by a `join_scoped` in the middle of its entry region), a listener of none, and its
+reverse-index sets are empty. -/
 theorem conc_no_zombie (ops : List Op) (calls : List Conc.Pc) (sched : List Conc.Tid) (a : Nat) :
     let g := Conc.run (g0 ops calls) sched
     Conc.phaseOf g a = .done →
-    a ∈ g.st.dead ∧ (∀ k, a ∉ membersOf g.st k) ∧ (∀ k, a ∉ listenersOf g.st k) ∧ (∀ s, a ∉ worldOf g.st s) ∧
-    relMem g.st a = [] ∧ relGmon g.st a = [] ∧ relWmon g.st a = [] := by
+    a ∈ g.st.dead ∧ (∀ k, a ∉ membersOf g.st k ∧ a ∉ Conc.accOf g k) ∧ (∀ k, a ∉ listenersOf g.st k) ∧
+    (∀ s, a ∉ worldOf g.st s) ∧ (∀ k, k ∉ relMem g.st a) ∧ (∀ k, k ∉ relGmon g.st a) ∧ (∀ s, s ∉ relWmon g.st a) := by
   intro g hp
-  have h : Conc.AInv a g.st (Conc.phaseOf g a) :=
-    Conc.allInv_run (Conc.allInv_start (inv_run inv_init ops) calls) sched a
-  have hz := h.z
-  have hd := h.dr
-  rw [hp] at hz hd
-  exact ⟨hz.1, hz.2.1, hz.2.2.1, hz.2.2.2, hd.2.2, hd.1, hd.2.1⟩
+  have h := conc_inv ops calls sched a
+  have hfM := h.fM; have hfL := h.fL; have hfW := h.fW; have hG := h.drG; have hM := h.drM; have hd := h.dead
+  rw [hp] at hfM hfL hfW hG hM hd
+  refine ⟨hd (by simp), fun k => ⟨fun x => hfM k (Or.inl x), fun x => hfM k (Or.inr x)⟩, fun k x => hfL k x,
+    fun s x => hfW s x, hM trivial, (hG trivial).1, (hG trivial).2⟩
 
-/-- **At rest** (every caller has returned, every exit that started has finished): no stopping actor is
-a member or a monitor of anything, and forward ↔ reverse agreement is total. -/
+/-- **At rest** (every caller has returned, every exit that started has finished, no entry is held): no
+stopping actor is a member or a monitor of anything, and forward ↔ reverse agreement is total. -/
 theorem conc_at_rest (ops : List Op) (calls : List Conc.Pc) (sched : List Conc.Tid) :
     let g := Conc.run (g0 ops calls) sched
     Conc.atRest g →
@@ -510,27 +514,30 @@ theorem conc_at_rest (ops : List Op) (calls : List Conc.Pc) (sched : List Conc.T
     (∀ a k, a ∈ membersOf g.st k ↔ k ∈ relMem g.st a) ∧ (∀ a k, a ∈ listenersOf g.st k ↔ k ∈ relGmon g.st a) ∧
     (∀ a s, a ∈ worldOf g.st s ↔ s ∈ relWmon g.st a) := by
   intro g hr
-  have hall : ∀ a, Conc.AInv a g.st (Conc.phaseOf g a) :=
-    Conc.allInv_run (Conc.allInv_start (inv_run inv_init ops) calls) sched
+  have hacc : ∀ k (x : Nat), x ∉ Conc.accOf g k := by
+    intro k x hx
+    unfold Conc.accOf at hx; rw [hr.2.2] at hx; cases hx
   have hclean : ∀ a, a ∈ g.st.dead → (∀ k, a ∉ membersOf g.st k) ∧ (∀ k, a ∉ listenersOf g.st k) ∧
       (∀ s, a ∉ worldOf g.st s) := by
     intro a hd
-    rcases hr.2 a with hp | hp
-    · exact (hall a).old hp hd
-    · have hz := (hall a).z
-      rw [hp] at hz
-      exact ⟨hz.2.1, hz.2.2.1, hz.2.2.2⟩
+    rcases hr.2.1 a with hp | hp
+    · obtain ⟨c1, c2, c3⟩ := (conc_inv ops calls sched a).old hp hd
+      exact ⟨fun k x => c1 k (Or.inl x), c2, c3⟩
+    · obtain ⟨_, c1, c2, c3, _⟩ := conc_no_zombie ops calls sched a hp
+      exact ⟨fun k => (c1 k).1, c2, c3⟩
   have hagree : ∀ a, (∀ k, a ∈ membersOf g.st k ↔ k ∈ relMem g.st a) ∧
       (∀ k, a ∈ listenersOf g.st k ↔ k ∈ relGmon g.st a) ∧ (∀ s, a ∈ worldOf g.st s ↔ s ∈ relWmon g.st a) := by
     intro a
-    rcases hr.2 a with hp | hp
-    · exact conc_agreement_outside_own_exit ops calls sched a (Or.inl hp)
+    rcases hr.2.1 a with hp | hp
+    · obtain ⟨e1, e2, e3⟩ := conc_agreement_outside_own_exit ops calls sched a (Or.inl hp)
+      refine ⟨fun k => ⟨fun h => (e1 k).mp (Or.inl h), fun h => ?_⟩, e2, e3⟩
+      rcases (e1 k).mpr h with x | x
+      · exact x
+      · exact absurd x (hacc k a)
     · obtain ⟨_, c1, c2, c3, e1, e2, e3⟩ := conc_no_zombie ops calls sched a hp
-      refine ⟨fun k => ⟨fun h => absurd h (c1 k), fun h => ?_⟩, fun k => ⟨fun h => absurd h (c2 k), fun h => ?_⟩,
-        fun s => ⟨fun h => absurd h (c3 s), fun h => ?_⟩⟩
-      · rw [e1] at h; cases h
-      · rw [e2] at h; cases h
-      · rw [e3] at h; cases h
+      exact ⟨fun k => ⟨fun h => absurd h (c1 k).1, fun h => absurd h (e1 k)⟩,
+        fun k => ⟨fun h => absurd h (c2 k), fun h => absurd h (e2 k)⟩,
+        fun s => ⟨fun h => absurd h (c3 s), fun h => absurd h (e3 s)⟩⟩
   exact ⟨hclean, fun a => (hagree a).1, fun a => (hagree a).2.1, fun a => (hagree a).2.2⟩
 
 /-- **Every query is the projection of the membership relation — in EVERY state of every schedule**, not
@@ -565,19 +572,22 @@ theorem conc_queries_are_projections (ops : List Op) (calls : List Conc.Pc) (sch
     simp only [whichScopedGroups, this, member]
 
 /-- **Linearisation.** Every region of every thread changes the membership read off the forward map
-exactly as the specification's transition for the region's linearised operation: `join` / `leave` take
-effect in their entry-lock region (a join admits the actors alive at THAT instant), the automatic
-leave of an exiting actor takes effect one group at a time in the `leave_all` iterations, and no
-other region (filters, clean-ups, notification regions, monitor / demonitor regions, the other exit
-regions) changes membership. Hence along every schedule the concrete membership IS the abstract
-relation evolved by the linearised operations. -/
+exactly as the specification's transition for the region's linearised operation: a `join` takes effect at
+the `joinCommit` that ends its entry-lock region, for exactly the actors it accepted — and an actor is
+accepted only at an instant at which it is not stopping (its status re-check under its relations lock;
+several actors of one call at several instants); a `leave` takes effect in its entry-lock region; the
+automatic leave of an exiting actor takes effect one group at a time in the `leave_all` iterations; no
+other region (filters, `joinLock`/`joinOne`, clean-ups, notification regions, monitor / demonitor
+regions, the other exit regions, blocked steps) changes membership. Hence along every schedule the
+concrete membership IS the abstract relation evolved by the linearised operations. -/
 theorem conc_membership_linearizable (ops : List Op) (calls : List Conc.Pc) (sched : List Conc.Tid) (k : Key) (x : Nat) :
     (∀ (g : Conc.G) (t : Conc.Tid),
       x ∈ membersOf (Conc.step g t).st k ↔
-        Conc.specLin (fun k x => x ∈ membersOf g.st k) (fun x => x ∉ g.st.dead) (Conc.linOf g t) k x) ∧
+        Conc.specLin (fun k x => x ∈ membersOf g.st k) (Conc.linOf g t) k x) ∧
+    (∀ (g : Conc.G) (t : Conc.Tid), x ∈ Conc.accOf (Conc.step g t) k → x ∈ Conc.accOf g k ∨ x ∉ g.st.dead) ∧
     (x ∈ membersOf (Conc.run (g0 ops calls) sched).st k ↔
       Conc.absRun (fun k x => x ∈ membersOf (run init ops) k) (g0 ops calls) sched k x) :=
-  ⟨fun g t => Conc.lin_step g t k x, Conc.lin_run (g0 ops calls) sched k x⟩
+  ⟨fun g t => Conc.lin_step g t k x, fun g t => Conc.accepted_alive g t k x, Conc.lin_run (g0 ops calls) sched k x⟩
 
 /-- **Each change is reported exactly once, to the listeners of the instant of the change.**
 (1) Every region appends at most the change records of its own linearised operation and each record
@@ -617,20 +627,28 @@ theorem conc_every_change_recorded (g : Conc.G) (t : Conc.Tid) (k : Key) (x : Na
       (p.isJoin = true ↔ x ∈ membersOf (Conc.step g t).st k) ∧ p.to = recipients g.st k :=
   Conc.change_recorded g t k x hch
 
-/-- non-vacuity: actors 1 and 2 exit at the same time while one thread joins both to a second group and
-another thread starts monitoring; mid-run the forward entry of actor 1 in group (1,0) is stale (its
-reverse index is already drained) and accounted for by the pending key of its own exit; at rest both
-are gone, the late join admitted nobody, and the monitor 9 got exactly one Leave per exiting member. -/
+/-- non-vacuity: thread 0 joins actors 1 and 2 to a second group (1,1) while both exit and thread 1
+starts monitoring scope 1. Actor 1 passes the status re-check of the join (`joinOne`), THEN publishes
+`Stopping` and drains its reverse index (the accepted membership is among the drained keys), actor 2
+publishes `Stopping` and is rejected by its own re-check; the exit's `lvKey (1,1)` is blocked while the
+join holds the entry; the join commits `[1]` — a stopping actor becomes a member for a moment, accounted
+for by the pending key of its own exit — and the exit then removes it and tells the scope monitor that
+registered in between. At rest both are gone and every Leave was sent once. -/
 example :
     let g := g0 [.join 1 0 [1, 2], .monitor 0 9] [.join 1 1 [1, 2], .monitorScope 1 8]
-    let mid := Conc.run g [.ex 1 .mark, .call 0, .ex 2 .mark, .ex 1 .demTake, .ex 1 .demDone, .ex 1 .take, .call 1]
-    let fin := Conc.run mid [.call 0, .call 1, .ex 2 .demTake, .call 1, .ex 2 .demDone, .ex 2 .take, .call 0,
-      .ex 1 (.lvKey (1, 0)), .ex 2 (.lvKey (1, 0)), .ex 2 .finish, .ex 1 .finish, .call 0]
-    membersOf mid.st (1, 0) = [1, 2] ∧ relMem mid.st 1 = [] ∧ Conc.phaseOf mid 1 = .leaving [(1, 0)] [] ∧
+    let mid := Conc.run g [.call 0, .call 0, .call 0, .ex 1 .mark, .ex 1 .demTake, .ex 1 .demDone, .ex 1 .take,
+      .ex 2 .mark, .call 1, .call 0]
+    let mid2 := Conc.run mid [.ex 1 (.lvKey (1, 1)), .call 0]
+    let fin := Conc.run mid2 [.call 1, .call 1, .ex 2 .demTake, .ex 2 .demDone, .ex 2 .take, .call 0,
+      .ex 1 (.lvKey (1, 0)), .ex 1 (.lvKey (1, 1)), .ex 2 (.lvKey (1, 0)), .ex 2 .finish, .ex 1 .finish, .call 0]
+    membersOf mid.st (1, 1) = [] ∧ Conc.accOf mid (1, 1) = [1] ∧ relMem mid.st 1 = [] ∧
+    Conc.phaseOf mid 1 = .leaving [(1, 0), (1, 1)] [] ∧
+    membersOf mid2.st (1, 1) = [1] ∧ Conc.phaseOf mid2 1 = .leaving [(1, 0), (1, 1)] [] ∧ mid2.locks = [] ∧
     membersOf fin.st (1, 0) = [] ∧ membersOf fin.st (1, 1) = [] ∧ fin.thr = [.done, .done] ∧
     Conc.phaseOf fin 1 = .done ∧ Conc.phaseOf fin 2 = .done ∧
-    fin.sent = [⟨9, false, 1, 0, [2]⟩, ⟨8, false, 1, 0, [2]⟩, ⟨9, false, 1, 0, [1]⟩, ⟨8, false, 1, 0, [1]⟩] ∧
-    Conc.windowFailing mid.st mid.exits = [] ∧ Conc.windowFailing fin.st fin.exits = [] := by decide
+    fin.sent = [⟨9, false, 1, 0, [2]⟩, ⟨8, false, 1, 0, [2]⟩, ⟨9, false, 1, 0, [1]⟩, ⟨8, false, 1, 0, [1]⟩,
+      ⟨8, false, 1, 1, [1]⟩] ∧
+    Conc.windowFailing mid2.st mid2.exits = [] ∧ Conc.windowFailing fin.st fin.exits = [] := by decide
 
 end C11
 
@@ -669,3 +687,4 @@ end C11
 #print axioms C11.conc_membership_linearizable
 #print axioms C11.conc_notifications_exactly_once
 #print axioms C11.conc_every_change_recorded
+#print axioms C11.conc_inv
